@@ -939,6 +939,17 @@ func DefaultIntrinsics() map[string]externalFn {
 	for _, n := range []string{"crypto/internal/fips140.RecordApproved", "crypto/internal/fips140.RecordNonApproved", "crypto/internal/fips140.ResetServiceIndicator"} {
 		m[n] = zeroFn
 	}
+	// controller-runtime's reflection-based nil test of an event object
+	m["sigs.k8s.io/controller-runtime/pkg/handler.isNil"] = func(fr *frame, a []value) value {
+		x, ok := a[0].(iface)
+		if !ok || x.t == nil {
+			return true
+		}
+		if p, isPtr := x.v.(*value); isPtr {
+			return p == nil
+		}
+		return x.v == nil
+	}
 	m["runtime/debug.Stack"] = func(fr *frame, a []value) value { return []value{} }
 	m["time.Now"] = func(fr *frame, a []value) value {
 		// deterministic clock: 2026-01-01T00:00:00Z plus one second per call (wall=0: no monotonic part)
